@@ -89,6 +89,8 @@ type Transport struct {
 	SplitWrites bool
 	// OnAccept is called (under no lock) with every accepted chunk at the moment of acceptance.
 	OnAccept func(b []byte)
+	// OnClose is called (under no lock) when Close takes effect.
+	OnClose func()
 }
 
 // NewTransport creates a mock transport.
@@ -268,6 +270,11 @@ func (t *Transport) Close() error {
 	}
 	t.closed = true
 	t.cond.Broadcast()
+	if t.OnClose != nil {
+		t.mu.Unlock()
+		t.OnClose()
+		t.mu.Lock()
+	}
 	return nil
 }
 
